@@ -16,11 +16,20 @@ Translates with `ast` (expressions and statements are parsed by shape, nothing i
 
 into terms of coq/theories/Events/Syntax.v.  coq/theories/Events/Tie.v interprets them.
 
-Fail closed: inside the translated functions every statement must either be recognised or be
-IGNORABLE: logging, docstrings, asserts without a binding, timestamps (`x = datetime.datetime.utcnow()` and the
-`started_at=/ended_at=/written_at=` fields), and statements without control flow that touch only attributes listed
-as untracked for their class (the done-callback bookkeeping of TaskAndThreadKeeper).  Everything else raises
-EmitterError and `./check C09` reports a broken tie obligation.
+Fail closed.  Inside the translated functions every statement must be recognised.  What is DROPPED (leaves no
+trace in the generated term) is only: docstrings; `logger.<level>(...)` / `self._logger.<level>(...)` /
+`logger = getLogger(...)` whose arguments contain no Call, NamedExpr, Await, Yield; bare annotations; timestamps
+(`x = datetime.datetime.utcnow()` and the `started_at=/ended_at=/written_at=` fields that hold them); the final
+`return <name>` of _prompt_func.  `assert` is translated (SAssertEq / SAssertTrue: the interpreter raises).  Calls
+into untranslated machinery are recognised by exact shape and leave an `SExt "<tag>"` in the term.
+In the translated classes and modules the translator also refuses: class bases / keywords / class decorators other
+than the expected ones; class-body statements that are not the expected `def`s (class-level attributes, special
+methods, further hookimpls); decorators and default argument values other than the expected ones; statements of
+`__init__` / `init` other than the expected plain bindings; module-level statements other than imports, `def`,
+`class`, docstrings (rebinding or monkeypatching of a translated name); sibling methods that mention a tracked
+dict / set / counter or the outgoing queue.  nextline/events.py (the nine child-side event classes) and
+TraceCallInfo in nextline/spawned/types.py are pinned by shape (fields, `__post_init__`).
+Everything else raises EmitterError and `./check C09` reports a broken tie obligation.
 """
 from __future__ import annotations
 
@@ -37,6 +46,8 @@ SRC_FACTORY = f'{PLUG}/pdb_/factory.py'
 SRC_CUSTOM = f'{PLUG}/pdb_/custom.py'
 SRC_COUNT = 'nextline/count.py'
 SRC_REG = f'{PLUG}/__init__.py'
+SRC_EVENTS = 'nextline/events.py'
+SRC_TYPES = 'nextline/spawned/types.py'
 
 
 class EmitterError(Exception):
@@ -47,6 +58,7 @@ EVENTS = {'OnStartTrace', 'OnEndTrace', 'OnStartTraceCall', 'OnEndTraceCall', 'O
           'OnStartPrompt', 'OnEndPrompt', 'OnWriteStdout'}
 RECORDS = EVENTS | {'TraceCallInfo'}
 TIME_FIELDS = {'started_at', 'ended_at', 'written_at'}
+RECORD_FIELDS: dict[str, list[str]] = {}     # class -> the fields its constructor takes (filled by record_shapes)
 FIRST_TRACKED = {'current_trace_no', 'current_trace_call_no', 'current_trace_call_info', 'is_on_trace_call'}
 FIRST_EXT = {'current_thread_no', 'current_task_no', 'prompt'}
 PROC_HOOKS = {'on_start_trace', 'on_end_trace', 'on_write_stdout', 'on_start_task_or_thread', 'on_end_task_or_thread'}
@@ -118,10 +130,12 @@ def find(body, kind, name, what):
     return xs[0]
 
 
-def params(fn, drop_self=True) -> list[str]:
+def params(fn, drop_self=True, defaults_ok=False) -> list[str]:
     a = fn.args
     if a.vararg or a.kwarg or a.posonlyargs:
         raise EmitterError(f'{fn.name}: *args/**kwargs/positional-only parameters')
+    if not defaults_ok and (a.defaults or any(d is not None for d in a.kw_defaults)):
+        raise EmitterError(f'{fn.name}: default argument values')
     names = [x.arg for x in a.args] + [x.arg for x in a.kwonlyargs]
     if drop_self and names[:1] == ['self']:
         names = names[1:]
@@ -229,6 +243,10 @@ def tr_expr(n, cx: Cx) -> str:
         return f'(ENot {tr_expr(n.operand, cx)})'
     if isinstance(n, ast.Tuple):
         return f'(ETuple {clist([tr_expr(x, cx) for x in n.elts])})'
+    if isinstance(n, ast.Compare) and len(n.ops) == 1 and isinstance(n.ops[0], (ast.Is, ast.IsNot)) \
+            and isinstance(n.comparators[0], ast.Constant) and n.comparators[0].value is None:
+        e = f'(EIsNone {tr_expr(n.left, cx)})'
+        return e if isinstance(n.ops[0], ast.Is) else f'(ENot {e})'
     if isinstance(n, ast.Compare) and len(n.ops) == 1 and isinstance(n.ops[0], (ast.In, ast.NotIn)):
         m = self_map(n.comparators[0], cx)
         if m is None:
@@ -279,6 +297,8 @@ def tr_expr(n, cx: Cx) -> str:
             if n.args:
                 raise EmitterError(f'{w}: positional arguments in `{norm(n)}`')
             fs = []
+            if sorted(k.arg or '**' for k in n.keywords) != sorted(RECORD_FIELDS.get(n.func.id, ['?'])):
+                raise EmitterError(f'{w}: `{n.func.id}(...)` is not given exactly its fields {RECORD_FIELDS.get(n.func.id)}')
             for k in n.keywords:
                 if k.arg is None:
                     raise EmitterError(f'{w}: ** in `{norm(n)}`')
@@ -324,41 +344,47 @@ def tr_exprfun(fn, cx: Cx) -> str:
 
 # ---------------------------------------------------------------- statements
 
+LOG_LEVELS = {'debug', 'info', 'warning', 'error', 'exception', 'critical'}
+IMPURE = (ast.Call, ast.NamedExpr, ast.Await, ast.Yield, ast.YieldFrom, ast.Lambda, ast.ListComp, ast.SetComp, ast.DictComp,
+          ast.GeneratorExp)
+
+
+def pure_args(call) -> bool:
+    """the arguments of a call contain no Call / NamedExpr / Await / Yield / comprehension"""
+    for a in list(call.args) + [k.value for k in call.keywords]:
+        if any(isinstance(n, IMPURE) for n in ast.walk(a)):
+            return False
+    return True
+
+
 def is_logging(st) -> bool:
-    if has_control(st):
-        return False
+    """`logger.<level>(<pure>)`, `self._logger.<level>(<pure>)`, `logger = getLogger(<pure>)`"""
     if isinstance(st, ast.Expr) and isinstance(st.value, ast.Call):
         c = chain(st.value.func)
-        return bool(c) and len(c) >= 2 and c[-2] in ('logger', '_logger')
+        if c and c[-1] in LOG_LEVELS and c[:-1] in (['logger'], ['self', '_logger']):
+            return pure_args(st.value)
+        return False
     if isinstance(st, ast.Assign) and len(st.targets) == 1 and is_name(st.targets[0], 'logger'):
-        return isinstance(st.value, ast.Call) and is_name(st.value.func, 'getLogger')
+        return isinstance(st.value, ast.Call) and is_name(st.value.func, 'getLogger') and pure_args(st.value)
     return False
 
 
 def ignorable(st, cx: Cx) -> bool:
+    """what may be dropped without a trace: logging with pure arguments, `pass`, a bare annotation"""
     if is_logging(st) or isinstance(st, ast.Pass):
         return True
-    if isinstance(st, ast.Assert):
-        return not any(isinstance(n, ast.NamedExpr) for n in ast.walk(st))
-    if isinstance(st, ast.If):
-        return (not has_control(st.test) and not (idents(st.test) & cx.tracked_names())
-                and all(ignorable(x, cx) for x in st.body + st.orelse))
-    if not isinstance(st, (ast.Expr, ast.Assign, ast.AnnAssign)):
-        return False
-    if has_control(st):
-        return False
-    if idents(st) & cx.tracked_names():
-        return False
-    # assignments: only to untracked attributes of self
-    targets = st.targets if isinstance(st, ast.Assign) else ([st.target] if isinstance(st, ast.AnnAssign) else [])
-    for t in targets:
-        if not (isinstance(t, ast.Attribute) and is_name(t.value, 'self') and t.attr in cx.untracked):
-            return False
-    # every attribute of self that is mentioned is untracked
-    for n in ast.walk(st):
-        if isinstance(n, ast.Attribute) and is_name(n.value, 'self') and n.attr not in cx.untracked:
-            return False
-    return True
+    if isinstance(st, ast.AnnAssign) and st.value is None and isinstance(st.target, ast.Name):
+        return True
+    return False
+
+
+# calls into machinery that is not translated, recognised by exact shape (normalised source) per function
+EXT_SHAPES = {
+    'TaskAndThreadKeeper._on_start': {
+        'if current is self._main_thread:\n    self._to_end = self._main_thread\nelse:\n    self._callback.register(current)': 'done_callback_register',
+        'self._counter()': 'thread_task_id_composer',
+    },
+}
 
 
 def tr_body(body, cx: Cx, top: bool = False) -> str:
@@ -402,9 +428,9 @@ def tr_with_item(item, cx: Cx, inner: str, st) -> str:
     if ctxvar:
         raise EmitterError(f'{cx.at(st)}: `{norm(item.context_expr)}`')
     if isinstance(e, ast.Call) and is_name(e.func, 'catch') and len(e.args) == 1 and not e.keywords and isinstance(e.args[0], ast.Dict):
-        for k in e.args[0].keys:
-            if not (isinstance(k, ast.Name) and k.id in ('KeyboardInterrupt',)):
-                raise EmitterError(f'{cx.at(st)}: catch() of `{norm(k)}`')
+        for k, v in zip(e.args[0].keys, e.args[0].values):
+            if not (isinstance(k, ast.Name) and k.id == 'KeyboardInterrupt' and is_name(v, '_keyboard_interrupt')):
+                raise EmitterError(f'{cx.at(st)}: catch() of `{norm(k)}: {norm(v)}`')
         return f'(SWithOpaque {inner})'
     c = chain(e.func) if isinstance(e, ast.Call) else None
     if c == ['self', '_cmdloop_hook'] and not e.args and not e.keywords:
@@ -426,7 +452,7 @@ def tr_stmt(st, cx: Cx, last: bool = False) -> str:
             return f'(STry {tr_body(st.body, cx)} {tr_body(st.finalbody, cx)})'
         if len(st.handlers) == 1 and not st.finalbody:
             h = st.handlers[0]
-            if not (isinstance(h.type, ast.Name) and h.name is None and all(is_logging(x) or ignorable(x, cx) for x in h.body)):
+            if not (isinstance(h.type, ast.Name) and h.name is None and all(is_logging(x) for x in h.body)):
                 raise EmitterError(f'{w}: except clause other than `except <Name>: <logging>`')
             return f'(STryExcept {tr_body(st.body, cx)} {cq(h.type.id)})'
         raise EmitterError(f'{w}: try statement of an unsupported shape')
@@ -438,18 +464,21 @@ def tr_stmt(st, cx: Cx, last: bool = False) -> str:
         for item in reversed(st.items):
             inner = tr_with_item(item, cx, inner, st)
         return inner
+    ext = EXT_SHAPES.get(cx.where, {}).get(norm(st))
+    if ext:
+        return f'(SExt {cq(ext)})'
     if isinstance(st, ast.If):
-        try:
-            c = tr_expr(st.test, cx)
-            a = tr_body(st.body, cx)
-            b = tr_body(st.orelse, cx)
-        except EmitterError:
-            if ignorable(st, cx):
-                return ''
-            raise
-        if a == 'SSkip' and b == 'SSkip':
-            return ''
-        return f'(SIf {c} {a} {b})'
+        return f'(SIf {tr_expr(st.test, cx)} {tr_body(st.body, cx)} {tr_body(st.orelse, cx)})'
+    if isinstance(st, ast.Assert):
+        if st.msg is not None and any(isinstance(n, IMPURE) for n in ast.walk(st.msg)):
+            raise EmitterError(f'{w}: assert message `{norm(st.msg)}`')
+        t = st.test
+        if isinstance(t, ast.NamedExpr) and isinstance(t.target, ast.Name):
+            # `assert (x := e)`: the binding, then the test
+            return seq([f'(SLet {cq(t.target.id)} {tr_expr(t.value, cx)})', f'(SAssertTrue (EVar {cq(t.target.id)}))'])
+        if isinstance(t, ast.Compare) and len(t.ops) == 1 and isinstance(t.ops[0], ast.Eq):
+            return f'(SAssertEq {tr_expr(t.left, cx)} {tr_expr(t.comparators[0], cx)})'
+        return f'(SAssertTrue {tr_expr(t, cx)})'
     if isinstance(st, ast.Raise):
         if st.exc is None:
             raise EmitterError(f'{w}: bare raise')
@@ -473,8 +502,9 @@ def tr_stmt(st, cx: Cx, last: bool = False) -> str:
         raise EmitterError(f'{w}: `{norm(st)}` not recognised')
     if isinstance(st, ast.FunctionDef):
         # a handler given to catch(): runs only when an exception is raised
-        if cx.where.endswith('_context') and st.name.startswith('_keyboard_interrupt'):
-            return ''
+        if cx.where.endswith('_context') and st.name == '_keyboard_interrupt' and not st.decorator_list \
+                and [norm(x) for x in strip_doc(st.body)] == ['nonlocal keyboard_interrupt_raised', 'keyboard_interrupt_raised = True']:
+            return ''        # pinned: it only records that KeyboardInterrupt passed (runs on that exception only)
         raise EmitterError(f'{w}: nested function `{st.name}`')
     if isinstance(st, ast.Delete):
         if len(st.targets) == 1 and isinstance(st.targets[0], ast.Subscript):
@@ -548,15 +578,12 @@ def tr_stmt(st, cx: Cx, last: bool = False) -> str:
             if m is not None:
                 return f'(SMapSet {cq(m)} {tr_expr(t.slice, cx)} {tr_expr(v, cx)})'
         if isinstance(t, ast.Attribute) and is_name(t.value, 'self'):
-            if t.attr in cx.untracked and ignorable(st, cx):
-                return ''
+            if t.attr in cx.untracked:
+                raise EmitterError(f'{w}: `{norm(st)}` (untranslated machinery outside the recognised shapes)')
             if t.attr in cx.maps or [t.attr] == cx.hook[1:] or (cx.queue and t.attr == cx.queue[-1]) or t.attr == cx.run_no:
                 raise EmitterError(f'{w}: `{norm(st)}` rebinds a tracked attribute')
             return f'(SSetAttr {cq(cx.attr(t.attr))} {tr_expr(v, cx)})'
         raise EmitterError(f'{w}: assignment `{norm(st)}` not recognised')
-    if isinstance(st, ast.Assert) and isinstance(st.test, ast.NamedExpr) and isinstance(st.test.target, ast.Name) and st.msg is None:
-        # `assert (x := e)`: the binding is what matters here
-        return f'(SLet {cq(st.test.target.id)} {tr_expr(st.test.value, cx)})'
     if ignorable(st, cx):
         return ''
     raise EmitterError(f'{w}: statement `{norm(st).splitlines()[0]}` not recognised')
@@ -592,18 +619,26 @@ def hookimpl_fn(cls, name: str, what: str, gen: bool):
     return f
 
 
-def check_init(cls, what: str, want: dict):
-    """the hookimpl `init`: self.<attr> = <expr text>"""
+def check_init(cls, what: str, want: dict, ps: list[str], extra: tuple = ()):
+    """the hookimpl `init`: exactly the bindings self.<attr> = <parameter or attribute chain of one> that are wanted
+    (plus the statements listed in `extra`, by normalised text); nothing else happens there"""
     f = find(cls.body, ast.FunctionDef, 'init', what)
+    if decos(f) != ['hookimpl'] or params(f) != ps:
+        raise EmitterError(f'{what}.init: decorators/parameters')
     got = {}
     for st in strip_doc(f.body):
+        if norm(st) in extra:
+            continue
         if isinstance(st, ast.Assign) and len(st.targets) == 1 and isinstance(st.targets[0], ast.Attribute) and is_name(st.targets[0].value, 'self'):
-            if st.targets[0].attr in got:
-                raise EmitterError(f'{what}.init: {st.targets[0].attr} assigned twice')
-            got[st.targets[0].attr] = st.value
-    for a, chn in want.items():
-        if a not in got or chain(got[a]) != chn:
-            raise EmitterError(f'{what}.init: self.{a} is not `{".".join(chn)}`')
+            a = st.targets[0].attr
+            if a in got or a not in want or chain(st.value) != want[a]:
+                raise EmitterError(f'{what}.init:{st.lineno}: `{norm(st)}` not expected')
+            got[a] = st.value
+            continue
+        raise EmitterError(f'{what}.init:{st.lineno}: statement `{norm(st).splitlines()[0]}` not expected')
+    for a in want:
+        if a not in got:
+            raise EmitterError(f'{what}.init: self.{a} is not bound')
     return f, got
 
 
@@ -617,6 +652,100 @@ def assigned_attrs_elsewhere(cls, attrs: set[str], allowed: set[str], what: str)
                     for t in ts:
                         if isinstance(t, ast.Attribute) and is_name(t.value, 'self') and t.attr in attrs:
                             raise EmitterError(f'{what}.{f.name}:{n.lineno}: rebinds self.{t.attr}')
+
+
+def check_class(cls, what: str, bases=()):
+    if [norm(b) for b in cls.bases] != list(bases) or cls.keywords or cls.decorator_list:
+        raise EmitterError(f'{what}: class bases / keywords / decorators other than {list(bases)}')
+
+
+def class_members(cls, what: str, allowed: set[str]) -> dict:
+    """the class body is a docstring and the expected `def`s, each at most once: no class-level attributes,
+    no special methods, no further hook implementations"""
+    members = {}
+    for st in strip_doc(cls.body):
+        if isinstance(st, ast.FunctionDef) and st.name in allowed and st.name not in members:
+            members[st.name] = st
+        else:
+            raise EmitterError(f'{what}:{getattr(st, "lineno", "?")}: class member `{norm(st).splitlines()[0]}` not expected')
+    return members
+
+
+def check_module(tree, rel: str, assigns: dict | None = None):
+    """module level: imports (no *), def, class, docstring, and the listed plain assignments; nothing is defined or
+    imported twice (no rebinding / monkeypatching of a translated name)"""
+    assigns = assigns or {}
+    seen: set[str] = set()
+
+    def add(name, st):
+        if name in seen:
+            raise EmitterError(f'{rel}:{st.lineno}: `{name}` is bound twice at module level')
+        seen.add(name)
+    for st in strip_doc(tree.body):
+        if isinstance(st, ast.Import):
+            for a in st.names:
+                add((a.asname or a.name).split('.')[0], st) if (a.asname or a.name).split('.')[0] not in seen else None
+        elif isinstance(st, ast.ImportFrom):
+            for a in st.names:
+                if a.name == '*':
+                    raise EmitterError(f'{rel}:{st.lineno}: star import')
+                add(a.asname or a.name, st)
+        elif isinstance(st, (ast.FunctionDef, ast.ClassDef)):
+            add(st.name, st)
+        elif isinstance(st, ast.Assign) and len(st.targets) == 1 and isinstance(st.targets[0], ast.Name) \
+                and assigns.get(st.targets[0].id) == norm(st.value):
+            add(st.targets[0].id, st)
+        else:
+            raise EmitterError(f'{rel}:{getattr(st, "lineno", "?")}: module-level statement `{norm(st).splitlines()[0]}` not expected')
+
+
+def check_ctor_init(f, what: str):
+    """__init__(self): only `self.x = <empty dict/set ctor>()`, a counter ctor, ThreadTaskIdComposer(), None, getLogger(__name__)"""
+    if params(f) or f.decorator_list:
+        raise EmitterError(f'{what}.__init__: parameters/decorators')
+    for st in strip_doc(f.body):
+        ok = False
+        if isinstance(st, (ast.Assign, ast.AnnAssign)):
+            t = st.targets[0] if isinstance(st, ast.Assign) and len(st.targets) == 1 else getattr(st, 'target', None)
+            v = st.value
+            if isinstance(t, ast.Attribute) and is_name(t.value, 'self') and v is not None:
+                if isinstance(v, ast.Constant) and v.value is None:
+                    ok = True
+                elif isinstance(v, ast.Call) and not v.keywords:
+                    base = subscript_base(v.func)
+                    if base in MAP_CTORS and not v.args:
+                        ok = True
+                    elif base in COUNTER_CTORS and all(isinstance(a, ast.Constant) for a in v.args):
+                        ok = True
+                    elif base == 'ThreadTaskIdComposer' and not v.args:
+                        ok = True
+                    elif base == 'getLogger' and [norm(a) for a in v.args] == ['__name__']:
+                        ok = True
+        if not ok:
+            raise EmitterError(f'{what}.__init__:{st.lineno}: statement `{norm(st).splitlines()[0]}` not expected')
+
+
+def check_siblings(members: dict, names, forbidden: set[str], what: str):
+    """methods that are not translated must not mention the tracked dicts / sets / counters / queue"""
+    for n in names:
+        if n in members:
+            bad = idents(members[n]) & forbidden
+            if bad:
+                raise EmitterError(f'{what}.{n}: untranslated method mentions {sorted(bad)}')
+
+
+def no_decorators(fn, what: str):
+    if fn.decorator_list:
+        raise EmitterError(f'{what}: decorators')
+
+
+def body_shapes(fn, what: str, allowed: list[str], skip=()):
+    """every statement of the body (docstring and the nested defs in `skip` apart) is one of the given shapes"""
+    for st in strip_doc(fn.body):
+        if isinstance(st, ast.FunctionDef) and st.name in skip:
+            continue
+        if norm(st) not in allowed:
+            raise EmitterError(f'{what}:{st.lineno}: statement `{norm(st).splitlines()[0]}` not expected')
 
 
 def fun(ps: list[str], body: str) -> str:
@@ -633,8 +762,11 @@ def parse(repo: Path, rel: str):
 
 
 def tr_repeater(tree) -> dict:
+    check_module(tree, SRC_REPEAT)
     cls = find(tree.body, ast.ClassDef, 'Repeater', SRC_REPEAT)
-    check_init(cls, 'Repeater', {'_hook': ['hook'], '_run_no': ['run_arg', 'run_no'], '_queue_out': ['queue_out']})
+    check_class(cls, 'Repeater')
+    check_init(cls, 'Repeater', {'_hook': ['hook'], '_run_no': ['run_arg', 'run_no'], '_queue_out': ['queue_out']},
+               ['hook', 'run_arg', 'queue_out'])
     assigned_attrs_elsewhere(cls, {'_hook', '_run_no', '_queue_out'}, {'init'}, 'Repeater')
     out = {}
     spec = {'on_start_trace': (False, ['trace_no']), 'on_end_trace': (False, ['trace_no']),
@@ -661,12 +793,21 @@ def tr_repeater(tree) -> dict:
 
 def tr_local(tree) -> dict:
     res = {}
+    check_module(tree, SRC_LOCAL)
     # ---- Factory / _factory / _context
     fac = find(tree.body, ast.FunctionDef, 'Factory', SRC_LOCAL)
     if params(fac) != ['hook']:
         raise EmitterError('local_.Factory: parameters')
+    no_decorators(fac, 'local_.Factory')
     inner = find(fac.body, ast.FunctionDef, '_factory', 'local_.Factory')
+    if params(inner):
+        raise EmitterError('local_._factory: parameters')
+    no_decorators(inner, 'local_._factory')
     ctx = find(inner.body, ast.FunctionDef, '_context', 'local_.Factory._factory')
+    counter_line = 'trace_call_no_counter = TraceCallNoCounter()'
+    body_shapes(fac, 'local_.Factory', [counter_line, 'return _factory'], skip=('_factory',))
+    body_shapes(inner, 'local_._factory', ['trace = hook.hook.create_local_trace_func()', counter_line,
+                                           'return WithContext(trace, context=_context)'], skip=('_context',))
     if decos(ctx) != ['contextmanager'] or params(ctx) != ['frame', 'event', 'arg']:
         raise EmitterError('local_._context: decorators/parameters')
     # where the trace-call counter object is created
@@ -698,6 +839,11 @@ def tr_local(tree) -> dict:
     res['funs'] = {'_context': fun(['frame', 'event', 'arg'], tr_body(ctx.body, cx, top=True))}
     # LocalTraceFunc.init: factory = Factory(hook) once per run, the per-trace map is defaultdict(factory)
     ltf = find(tree.body, ast.ClassDef, 'LocalTraceFunc', SRC_LOCAL)
+    check_class(ltf, 'LocalTraceFunc')
+    lm = class_members(ltf, 'LocalTraceFunc', {'init', 'local_trace_func', 'clean_exception'})
+    check_init(ltf, 'LocalTraceFunc', {'_hook': ['hook']}, ['hook'],
+               extra=('factory = Factory(hook)', 'self._map = defaultdict[TraceNo, TraceFunction](factory)'))
+    check_siblings(lm, ['clean_exception'], {'_map', '_hook', 'Factory', 'put'}, 'LocalTraceFunc')
     ini = find(ltf.body, ast.FunctionDef, 'init', 'LocalTraceFunc')
     calls = [n for n in ast.walk(ini) if isinstance(n, ast.Call) and is_name(n.func, 'Factory')]
     if len(calls) != 1:
@@ -712,10 +858,16 @@ def tr_local(tree) -> dict:
         raise EmitterError('LocalTraceFunc.local_trace_func: not `self._map[current_trace_no()](frame, event, arg)`')
     # ---- TraceCallHandler
     tch = find(tree.body, ast.ClassDef, 'TraceCallHandler', SRC_LOCAL)
+    check_class(tch, 'TraceCallHandler')
+    tm = class_members(tch, 'TraceCallHandler', {'__init__', 'init', '_current_trace_no', '_current_trace_call_info', 'on_trace_call',
+                                                 'is_on_trace_call', 'current_trace_call_no', 'current_trace_args',
+                                                 'current_trace_call_info'})
+    check_ctor_init(tm['__init__'], 'TraceCallHandler') if '__init__' in tm else None
     maps, counters = init_maps(tch, 'TraceCallHandler')
     if counters:
         raise EmitterError('TraceCallHandler: unexpected counter')
-    check_init(tch, 'TraceCallHandler', {'_hook': ['hook']})
+    check_init(tch, 'TraceCallHandler', {'_hook': ['hook']}, ['hook'])
+    check_siblings(tm, ['current_trace_args'], set(maps) | {'put', '_queue_out'}, 'TraceCallHandler')
     assigned_attrs_elsewhere(tch, maps | {'_hook'}, {'__init__', 'init'}, 'TraceCallHandler')
     helpers = {}
     members = {st.name: st for st in tch.body if isinstance(st, ast.FunctionDef)}
@@ -758,12 +910,18 @@ def tr_local(tree) -> dict:
 
 def tr_concurrency(tree) -> dict:
     res = {'funs': {}, 'exprs': {}}
+    check_module(tree, SRC_CONC)
     # ---- TaskAndThreadKeeper
     kp = find(tree.body, ast.ClassDef, 'TaskAndThreadKeeper', SRC_CONC)
+    check_class(kp, 'TaskAndThreadKeeper')
+    km = class_members(kp, 'TaskAndThreadKeeper', {'__init__', 'init', 'context', 'filtered', '_on_start', '_on_end',
+                                                   'current_thread_no', 'current_task_no'})
+    check_ctor_init(km['__init__'], 'TaskAndThreadKeeper') if '__init__' in km else None
     maps, counters = init_maps(kp, 'TaskAndThreadKeeper')
     if counters:
         raise EmitterError('TaskAndThreadKeeper: unexpected counter')
-    check_init(kp, 'TaskAndThreadKeeper', {'_hook': ['hook']})
+    check_init(kp, 'TaskAndThreadKeeper', {'_hook': ['hook']}, ['hook'])
+    check_siblings(km, ['context', 'current_thread_no', 'current_task_no'], set(maps) | {'_hook', 'put', '_queue_out'}, 'TaskAndThreadKeeper')
     assigned_attrs_elsewhere(kp, maps | {'_hook'}, {'__init__', 'init'}, 'TaskAndThreadKeeper')
     untracked = {'_callback', '_main_thread', '_to_end', '_counter', '_logger'}
     members = {st.name: st for st in kp.body if isinstance(st, ast.FunctionDef)}
@@ -796,12 +954,16 @@ def tr_concurrency(tree) -> dict:
             raise EmitterError(f'TaskAndThreadKeeper.{name}: member not recognised')
     # ---- TaskOrThreadToTraceMapper
     mp = find(tree.body, ast.ClassDef, 'TaskOrThreadToTraceMapper', SRC_CONC)
+    check_class(mp, 'TaskOrThreadToTraceMapper')
+    mm = class_members(mp, 'TaskOrThreadToTraceMapper', {'__init__', 'init', 'on_start_task_or_thread', 'on_end_task_or_thread',
+                                                         'current_trace_no'})
+    check_ctor_init(mm['__init__'], 'TaskOrThreadToTraceMapper') if '__init__' in mm else None
     maps, counters = init_maps(mp, 'TaskOrThreadToTraceMapper')
     if len(counters) != 1 or list(counters.values())[0][0] != 'CTrace':
         raise EmitterError('TaskOrThreadToTraceMapper.__init__: expected exactly one TraceNoCounter attribute')
     cattr = list(counters)[0]
     res['ctrace'] = ('PerRun', counters[cattr][1])
-    check_init(mp, 'TaskOrThreadToTraceMapper', {'_hook': ['hook']})
+    check_init(mp, 'TaskOrThreadToTraceMapper', {'_hook': ['hook']}, ['hook'])
     assigned_attrs_elsewhere(mp, maps | {'_hook', cattr}, {'__init__', 'init'}, 'TaskOrThreadToTraceMapper')
     members = {st.name: st for st in mp.body if isinstance(st, ast.FunctionDef)}
     cn = {('self', cattr): 'CTrace'}
@@ -822,10 +984,13 @@ def tr_concurrency(tree) -> dict:
 
 def tr_factory(tree) -> dict:
     res = {'funs': {}}
+    check_module(tree, SRC_FACTORY)
     # CmdloopHook
     ch = find(tree.body, ast.FunctionDef, 'CmdloopHook', SRC_FACTORY)
     if params(ch) != ['hook']:
         raise EmitterError('CmdloopHook: parameters')
+    no_decorators(ch, 'CmdloopHook')
+    body_shapes(ch, 'CmdloopHook', ['return cmdloop'], skip=('cmdloop',))
     cl = find(ch.body, ast.FunctionDef, 'cmdloop', 'CmdloopHook')
     if params(cl) or cl.decorator_list:
         raise EmitterError('CmdloopHook.cmdloop: parameters/decorators')
@@ -837,6 +1002,9 @@ def tr_factory(tree) -> dict:
     pf = find(tree.body, ast.FunctionDef, 'PromptFunc', SRC_FACTORY)
     if params(pf) != ['hook']:
         raise EmitterError('PromptFunc: parameters')
+    no_decorators(pf, 'PromptFunc')
+    body_shapes(pf, 'PromptFunc', ['counter = PromptNoCounter(1)', 'counter = PromptNoCounter()', 'logger = getLogger(__name__)',
+                                   'return _prompt_func'], skip=('_prompt_func',))
     inner = find(pf.body, ast.FunctionDef, '_prompt_func', 'PromptFunc')
     if params(inner) != ['text'] or inner.decorator_list:
         raise EmitterError('PromptFunc._prompt_func: parameters/decorators')
@@ -857,7 +1025,18 @@ def tr_factory(tree) -> dict:
     res['funs']['_prompt_func'] = fun(['text'], tr_body(inner.body, cx, top=True))
     # Factory: PromptFunc / CmdloopHook are called once per run (outer body) or once per trace (_factory)
     fac = find(tree.body, ast.FunctionDef, 'Factory', SRC_FACTORY)
+    if params(fac) != ['hook']:
+        raise EmitterError('pdb_.Factory: parameters')
+    no_decorators(fac, 'pdb_.Factory')
     inner_f = find(fac.body, ast.FunctionDef, '_factory', 'pdb_.Factory')
+    if params(inner_f):
+        raise EmitterError('pdb_._factory: parameters')
+    no_decorators(inner_f, 'pdb_._factory')
+    pins = ['cmdloop_hook = CmdloopHook(hook=hook)', 'prompt_func = PromptFunc(hook=hook)']
+    body_shapes(fac, 'pdb_.Factory', pins + ['return _factory'], skip=('_factory',))
+    body_shapes(inner_f, 'pdb_._factory', pins + ['stdio = StdInOut(prompt_func=prompt_func)',
+                                                  'pdb = CustomizedPdb(cmdloop_hook=cmdloop_hook, stdin=stdio, stdout=stdio)',
+                                                  'stdio.prompt_end = pdb.prompt', 'return pdb.trace_dispatch'])
     scope = None
     names = {}
     for level, body, sc in (('Factory', fac.body, 'PerRun'), ('_factory', inner_f.body, 'PerTrace')):
@@ -881,6 +1060,12 @@ def tr_factory(tree) -> dict:
     if not (ok_p and ok_c):
         raise EmitterError('pdb_._factory: prompt_func / cmdloop_hook are not passed to StdInOut / CustomizedPdb')
     pif = find(tree.body, ast.ClassDef, 'PdbInstanceFactory', SRC_FACTORY)
+    check_class(pif, 'PdbInstanceFactory')
+    pm = class_members(pif, 'PdbInstanceFactory', {'init', 'create_local_trace_func'})
+    check_init(pif, 'PdbInstanceFactory', {}, ['hook'], extra=('self._factory = Factory(hook=hook)',))
+    if 'create_local_trace_func' not in pm or decos(pm['create_local_trace_func']) != ['hookimpl'] or params(pm['create_local_trace_func']) \
+            or [norm(x) for x in strip_doc(pm['create_local_trace_func'].body)] != ['return self._factory()']:
+        raise EmitterError('PdbInstanceFactory.create_local_trace_func: is not `return self._factory()`')
     ini = find(pif.body, ast.FunctionDef, 'init', 'PdbInstanceFactory')
     if len([n for n in ast.walk(ini) if isinstance(n, ast.Call) and is_name(n.func, 'Factory')]) != 1:
         raise EmitterError('PdbInstanceFactory.init: Factory(hook) is not called exactly once')
@@ -892,18 +1077,25 @@ def tr_factory(tree) -> dict:
 
 
 def tr_custom(tree) -> dict:
+    check_module(tree, SRC_CUSTOM)
     cls = find(tree.body, ast.ClassDef, 'CustomizedPdb', SRC_CUSTOM)
+    check_class(cls, 'CustomizedPdb', bases=['Pdb'])
+    # no further override of a Pdb / Cmd method (do_*, onecmd, precmd, postcmd, preloop, postloop, interaction ...)
+    cm = class_members(cls, 'CustomizedPdb', {'__init__', '_cmdloop', 'cmdloop', 'set_continue'})
+    check_siblings(cm, ['set_continue'], {'_cmdloop_hook', 'cmdloop', '_cmdloop'}, 'CustomizedPdb')
     f = find(cls.body, ast.FunctionDef, 'cmdloop', 'CustomizedPdb')
-    if params(f) != ['intro'] or f.decorator_list:
-        raise EmitterError('CustomizedPdb.cmdloop: parameters/decorators')
+    if params(f, defaults_ok=True) != ['intro'] or f.decorator_list or [norm(d) for d in f.args.defaults] != ['None']:
+        raise EmitterError('CustomizedPdb.cmdloop: parameters/defaults/decorators')
     # __init__ stores the hook it is given
     ini = find(cls.body, ast.FunctionDef, '__init__', 'CustomizedPdb')
     if 'self._cmdloop_hook = cmdloop_hook' not in [norm(s) for s in ini.body]:
         raise EmitterError('CustomizedPdb.__init__: self._cmdloop_hook = cmdloop_hook missing')
     assigned_attrs_elsewhere(cls, {'_cmdloop_hook'}, {'__init__'}, 'CustomizedPdb')
     # Pdb's own _cmdloop goes through self.cmdloop()
+    if sum(1 for n in ast.walk(ini) if isinstance(n, ast.Attribute) and n.attr == '_cmdloop_hook') != 1:
+        raise EmitterError('CustomizedPdb.__init__: self._cmdloop_hook mentioned more than once')
     c2 = find(cls.body, ast.FunctionDef, '_cmdloop', 'CustomizedPdb')
-    if [norm(s) for s in strip_doc(c2.body)] != ['self.cmdloop()']:
+    if params(c2) or c2.decorator_list or [norm(s) for s in strip_doc(c2.body)] != ['self.cmdloop()']:
         raise EmitterError('CustomizedPdb._cmdloop: is not `self.cmdloop()`')
     cx = Cx('CustomizedPdb.cmdloop', 'CustomizedPdb', ['self', '_no_hook_here'])
     return {'CustomizedPdb.cmdloop': fun(['intro'], tr_body(f.body, cx, top=True))}
@@ -911,10 +1103,12 @@ def tr_custom(tree) -> dict:
 
 def tr_count(tree) -> dict:
     """XNoCounter(start=<d>) = CastedCounter(count(start).__next__, X); CastedCounter(src, type_)() = type_(src())"""
+    check_module(tree, SRC_COUNT, assigns={'_T': "TypeVar('_T', bound=int)"})
     imp = [a.name for st in tree.body if isinstance(st, ast.ImportFrom) and st.module == 'itertools' for a in st.names]
     if 'count' not in imp:
         raise EmitterError('count.py: `from itertools import count` missing')
     cc = find(tree.body, ast.FunctionDef, 'CastedCounter', SRC_COUNT)
+    no_decorators(cc, 'CastedCounter')
     if params(cc, False) != ['src', 'type_']:
         raise EmitterError('CastedCounter: parameters')
     body = strip_doc(cc.body)
@@ -926,7 +1120,8 @@ def tr_count(tree) -> dict:
     out = {}
     for name in COUNTER_CTORS:
         f = find(tree.body, ast.FunctionDef, name, SRC_COUNT)
-        if params(f, False) != ['start'] or len(f.args.defaults) != 1 or not isinstance(f.args.defaults[0], ast.Constant) \
+        no_decorators(f, name)
+        if params(f, False, defaults_ok=True) != ['start'] or len(f.args.defaults) != 1 or not isinstance(f.args.defaults[0], ast.Constant) \
                 or type(f.args.defaults[0].value) is not int:
             raise EmitterError(f'{name}: parameters/default')
         body = strip_doc(f.body)
@@ -955,7 +1150,10 @@ def start_of(call, defaults: dict, what: str) -> int:
 
 def registration(repo: Path, tracked_classes: set[str]) -> tuple[list[str], int, list[str]]:
     tree = parse(repo, SRC_REG)
+    check_module(tree, SRC_REG, assigns={'__all__': "['register']"})
     reg = find(tree.body, ast.FunctionDef, 'register', SRC_REG)
+    if reg.decorator_list or params(reg, False) != ['hook', 'run_arg']:
+        raise EmitterError('register: decorators/parameters')
     order = []
 
     def walk(body):
@@ -1003,12 +1201,62 @@ def registration(repo: Path, tracked_classes: set[str]) -> tuple[list[str], int,
     return tracked, putters, others
 
 
+def record_shapes(repo: Path) -> dict:
+    """PIN (shape of the source): the nine child-side event classes of nextline/events.py are plain dataclasses over
+    `Event` whose only method is `__post_init__: _assert_naive_datetime(self.<time field>)`, and TraceCallInfo
+    (spawned/types.py) derives file_name / line_no / frame_object_id / event from args as Events/Interp.v [field] assumes"""
+    RECORD_FIELDS.clear()
+    te = parse(repo, SRC_EVENTS)
+    base = find(te.body, ast.ClassDef, 'Event', SRC_EVENTS)
+    if decos(base) != ['dataclass'] or base.bases or [norm(x) for x in strip_doc(base.body)] != ['pass']:
+        raise EmitterError('events.Event: not an empty dataclass')
+    fn = find(te.body, ast.FunctionDef, '_assert_naive_datetime', SRC_EVENTS)
+    if [norm(x) for x in strip_doc(fn.body)] != ["if is_timezone_aware(dt):\n    raise ValueError(f'Not a timezone-naive object: {dt!r}')"] \
+            or fn.decorator_list:
+        raise EmitterError('events._assert_naive_datetime: body')
+    seen = set()
+    for st in te.body:
+        if isinstance(st, (ast.ClassDef, ast.FunctionDef)):
+            if st.name in seen:
+                raise EmitterError(f'{SRC_EVENTS}: `{st.name}` defined twice')
+            seen.add(st.name)
+        elif isinstance(st, (ast.Assign, ast.AugAssign, ast.Delete)) or (isinstance(st, ast.Expr) and not isinstance(st.value, ast.Constant)):
+            raise EmitterError(f'{SRC_EVENTS}:{st.lineno}: module-level statement `{norm(st).splitlines()[0]}`')
+    for name in sorted(EVENTS):
+        c = find(te.body, ast.ClassDef, name, SRC_EVENTS)
+        if decos(c) != ['dataclass'] or [norm(b) for b in c.bases] != ['Event'] or c.keywords:
+            raise EmitterError(f'events.{name}: not `@dataclass class {name}(Event)`')
+        fields, post = [], None
+        for st in strip_doc(c.body):
+            if isinstance(st, ast.AnnAssign) and isinstance(st.target, ast.Name) and st.value is None:
+                fields.append(st.target.id)
+            elif isinstance(st, ast.FunctionDef) and st.name == '__post_init__' and post is None and not st.decorator_list and not params(st):
+                post = [norm(x) for x in strip_doc(st.body)]
+            else:
+                raise EmitterError(f'events.{name}:{st.lineno}: member `{norm(st).splitlines()[0]}` not expected')
+        tf = [f for f in fields if f in TIME_FIELDS]
+        if len(tf) != 1 or post != [f'_assert_naive_datetime(self.{tf[0]})']:
+            raise EmitterError(f'events.{name}: __post_init__ is not `_assert_naive_datetime(self.<time field>)`')
+        RECORD_FIELDS[name] = fields
+    tt = parse(repo, SRC_TYPES)
+    c = find(tt.body, ast.ClassDef, 'TraceCallInfo', SRC_TYPES)
+    want = ['trace_call_no: TraceCallNo', 'args: TraceArgs', 'file_name: str = field(init=False)', 'line_no: int = field(init=False)',
+            'frame_object_id: int = field(init=False)', 'event: str = field(init=False)',
+            'def __post_init__(self) -> None:\n    frame, event, _ = self.args\n    self.file_name = to_canonic_path(frame.f_code.co_filename)\n'
+            '    self.line_no = frame.f_lineno\n    self.frame_object_id = id(frame)\n    self.event = event']
+    if decos(c) != ['dataclass'] or c.bases or c.keywords or [norm(x) for x in strip_doc(c.body)] != want:
+        raise EmitterError('types.TraceCallInfo: fields / __post_init__ are not the ones Events/Interp.v assumes')
+    RECORD_FIELDS['TraceCallInfo'] = ['trace_call_no', 'args']
+    return dict(RECORD_FIELDS)
+
+
 # ---------------------------------------------------------------- all of it
 
 def skeleton(repo: Path) -> dict:
     repo = Path(repo)
     funs: dict[str, str] = {}
     exprs: dict[str, str] = {}
+    records = record_shapes(repo)
     funs.update(tr_repeater(parse(repo, SRC_REPEAT)))
     loc = tr_local(parse(repo, SRC_LOCAL))
     funs.update(loc['funs'])
@@ -1034,7 +1282,7 @@ def skeleton(repo: Path) -> dict:
     for h in sorted(PROC_HOOKS):
         call_impls[h] = [f'{c}.{h}' for c in call_order if f'{c}.{h}' in funs]
     return {'funs': funs, 'exprs': exprs, 'counters': counters, 'with_impls': with_impls, 'call_impls': call_impls,
-            'putters': putters, 'others': sorted(others), 'defaults': defaults}
+            'putters': putters, 'others': sorted(others), 'defaults': defaults, 'records': records}
 
 
 def ident_of(name: str) -> str:
@@ -1079,6 +1327,10 @@ def translate(repo: Path) -> str:
     L.append('  ' + clist([f'({cq(h)}, {clist([cq(x) for x in v])})' for h, v in sk['with_impls'].items()]) + '.')
     L.append('Definition call_impls : list (string * list string) :=')
     L.append('  ' + clist([f'({cq(h)}, {clist([cq(x) for x in v])})' for h, v in sk['call_impls'].items()]) + '.')
+    L.append('')
+    L.append('(** the fields of the event classes (nextline/events.py) and of TraceCallInfo; every constructor call above is given exactly these *)')
+    L.append('Definition record_fields : list (string * list string) :=')
+    L.append('  ' + clist([f'({cq(c)}, {clist([cq(x) for x in fs])})' for c, fs in sorted(sk['records'].items())]) + '.')
     L.append('')
     L.append(f'(** implementations of these hooks in other plugins (none touches the outgoing queue): {", ".join(sk["others"]) or "none"} *)')
     L.append(f'Definition other_queue_out_putters : nat := {sk["putters"]}.   (* `<..queue_out..>.put(..)` in nextline/spawned outside repeat.py *)')
